@@ -52,9 +52,14 @@ class Raw:
 
 
 class Prelude(Raw):
-    def __init__(self, relpath):
+    def __init__(self, relpath, until=None):
+        """`until`: take only the text before this marker (e.g. the spec vocabulary of a file without the
+        assumed contracts that follow it)."""
         with open(os.path.join(VERIF, 'verus', 'prelude', relpath)) as f:
-            super().__init__(f.read(), 'prelude:' + relpath)
+            text = f.read()
+        if until is not None:
+            text = text[:text.index(until)]
+        super().__init__(text, 'prelude:' + relpath + ('' if until is None else ' (spec part)'))
         self.relpath = relpath
 
 
